@@ -24,6 +24,7 @@ type ReplaySpec struct {
 	PkgDir     string            `json:"pkg_dir"`    // package directory relative to the repository
 	Values     map[string]string `json:"values"`     // NAME -> SMT expression evaluated in the counter-model
 	Run        string            `json:"run"`        // test name
+	Candidate  bool              `json:"candidate"`  // also run when the obligation is undecided: input values come from a candidate model (script without quantified assumptions)
 	Static     bool              `json:"static"`     // the driver is a fixed scenario (no model values): run it whenever the obligation is not discharged
 }
 
@@ -61,26 +62,49 @@ func modelValues(smtFile string, exprs []string) (map[string]string, error) {
 		}
 		kept = append(kept, l)
 	}
-	text = strings.Join(kept, "\n")
-	text += "(get-value (" + strings.Join(exprs, " ") + "))\n"
-	tmp := smtFile + ".values.smt2"
-	if err := os.WriteFile(tmp, []byte(text), 0o644); err != nil {
-		return nil, err
-	}
-	defer os.Remove(tmp)
-	for _, solver := range [][]string{{"z3-new", "-T:60", tmp}, {"z3", "-T:60", tmp}} {
-		ctx, cancel := context.WithTimeout(context.Background(), 70*time.Second)
-		out, _ := exec.CommandContext(ctx, solver[0], solver[1:]...).CombinedOutput()
-		cancel()
-		s := strings.TrimSpace(string(out))
-		if !strings.HasPrefix(s, "sat") {
+	// first the script as it is; if the solvers only answer "unknown" (quantified facts), a candidate model of the
+	// script without its quantified assumptions: it may violate a dropped fact, which is why it is only used as
+	// an input to try on the real code, never as evidence by itself
+	relaxed := make([]string, 0, len(kept))
+	goalSeen := false
+	for i := len(kept) - 1; i >= 0; i-- {
+		l := kept[i]
+		if !goalSeen && strings.HasPrefix(l, "(assert (not ") {
+			goalSeen = true
+			relaxed = append(relaxed, l)
 			continue
 		}
-		body := strings.TrimSpace(strings.TrimPrefix(s, "sat"))
-		vals, err := parseGetValue(body, exprs)
-		if err == nil {
-			return vals, nil
+		if strings.HasPrefix(l, "(assert") && strings.Contains(l, "(forall") {
+			continue
 		}
+		relaxed = append(relaxed, l)
+	}
+	for i, j := 0, len(relaxed)-1; i < j; i, j = i+1, j-1 {
+		relaxed[i], relaxed[j] = relaxed[j], relaxed[i]
+	}
+	for _, variant := range [][]string{kept, relaxed} {
+		text = strings.Join(variant, "\n")
+		text += "\n(get-value (" + strings.Join(exprs, " ") + "))\n"
+		tmp := smtFile + ".values.smt2"
+		if err := os.WriteFile(tmp, []byte(text), 0o644); err != nil {
+			return nil, err
+		}
+		for _, solver := range [][]string{{"z3-new", "-T:30", tmp}, {"z3", "-T:30", tmp}} {
+			ctx, cancel := context.WithTimeout(context.Background(), 40*time.Second)
+			out, _ := exec.CommandContext(ctx, solver[0], solver[1:]...).CombinedOutput()
+			cancel()
+			s := strings.TrimSpace(string(out))
+			if !strings.HasPrefix(s, "sat") {
+				continue
+			}
+			body := strings.TrimSpace(strings.TrimPrefix(s, "sat"))
+			vals, err := parseGetValue(body, exprs)
+			if err == nil {
+				os.Remove(tmp)
+				return vals, nil
+			}
+		}
+		os.Remove(tmp)
 	}
 	return nil, fmt.Errorf("no model values available")
 }
